@@ -100,7 +100,8 @@ def per_process_vars(spec='DesyncImpl.tla'):
     init = init[:init.index('\n\n')]
     names = re.findall(r'/\\ (\w+) = \[\s*self \\in ProcSet \|->', init)
     procs = init[init.index('(* Procedure'):] if '(* Procedure' in init else init
-    return [n for n in names if re.search(r'/\\ %s = \[' % n, procs)]
+    # ... and the globals indexed by process that only the process itself writes
+    return [n for n in names if re.search(r'/\\ %s = \[' % n, procs)] + ['rv', 'rwb', 'rneed', 'dsl', 'atomic']
 
 
 def all_labels(spec='DesyncImpl.tla'):
